@@ -1,2 +1,134 @@
-/-! placeholder driver (property C06 not built yet) -/
-def main : IO Unit := IO.println "bad-op"
+import LlgoVerif.Util
+import LlgoVerif.Model.HMap
+/-! Line-protocol driver for C06 (`modeld_c06`): the bucket-level map model driven with the real hashes.
+
+    kind <reflexive> <needKeyUpdate> <hashMightPanic>      (0/1 each; resets everything)
+    rand v v …            append to the fastrand script
+    mk <hint> | nil | clr | len
+    set <K> <v> | get <K> | get1 <K> | del <K>
+    itn <slot> | itx <slot>
+  <K> = cls,repr,refl,unhashable,nankind,hash(hex)   (eq a b := a.refl ∧ b.refl ∧ a.cls = b.cls)
+  answer: `<result> | st=count,flags,B,noverflow,nevacuate,growing,hash0 fr=<fastrand calls> th=<throws>` -/
+open LlgoVerif LlgoVerif.Util LlgoVerif.HMap
+
+structure DK where
+  cls : Nat := 0
+  repr : Nat := 0
+  refl : Bool := true
+  unh : Bool := false
+  nanKind : Nat := 0
+  hash : UInt64 := 0
+deriving Inhabited
+
+def c0 : UInt64 := 33054211828000289
+def c1 : UInt64 := 23344194077549503
+
+/-- alg.go: `f64hash` on NaN (kind 0), `nilinterhash` over `f64hash` on NaN (kind 1) -/
+def nanHash (seed : UInt32) (k : DK) (x : UInt32) : UInt64 :=
+  let h := seed.toUInt64
+  let r := x.toUInt64
+  if k.nanKind == 0 then c1 * (c0 ^^^ h ^^^ r) else c1 * (c1 * (c0 ^^^ (h ^^^ c0) ^^^ r))
+
+def mkOps (refl upd mp : Bool) : Ops DK :=
+  { hash := fun _ k => k.hash, nanHash := nanHash, eq := fun a b => a.refl && b.refl && a.cls == b.cls,
+    unhashable := fun k => k.unh, reflexiveKey := refl, needKeyUpdate := upd, hashMightPanic := mp }
+
+structure St where
+  ops : Ops DK := mkOps true false false
+  m : MapRef DK Nat := .nil {}
+  its : List (String × Iter DK Nat) := []
+
+def parseHex (s : String) : Option UInt64 :=
+  s.toList.foldlM (fun (acc : Nat) c => (hexVal c).map (fun d => acc * 16 + d)) 0 |>.map UInt64.ofNat
+
+def parseKey (s : String) : Option DK :=
+  match s.splitOn "," with
+  | [a, b, c, d, e, f] => do
+    let h ← parseHex f
+    pure { cls := ← a.toNat?, repr := ← b.toNat?, refl := c == "1", unh := d == "1", nanKind := ← e.toNat?, hash := h }
+  | _ => none
+
+def errStr : Err → String
+  | .nilMap => "panic:nilmap"
+  | .unhashable => "panic:unhashable"
+  | .loop => "model-fuel"
+
+def stStr (m : MapRef DK Nat) : String :=
+  match m with
+  | .nil r => s!"st=0,0,0,0,0,0,0 fr={r.calls} th=0"
+  | .ref h =>
+    let flags := (if h.iterFlag then 1 else 0) + (if h.oldIterFlag then 2 else 0) + (if h.sameSizeGrow then 8 else 0)
+    s!"st={h.count},{flags},{h.B},{h.noverflow},{h.nevacuate},{if h.growing then 1 else 0},{h.hash0.toNat} fr={h.rand.calls} th={h.throws}"
+
+def addRand (m : MapRef DK Nat) (vs : List UInt32) : MapRef DK Nat :=
+  match m with
+  | .nil r => .nil { r with script := r.script ++ vs }
+  | .ref h => .ref { h with rand := { h.rand with script := h.rand.script ++ vs } }
+
+def pruneSt (s : St) : St :=
+  match s.m with
+  | .ref h =>
+    let keep := s.its.flatMap fun (_, it) => it.gen :: (match it.bptr with | some b => [b.gen] | none => [])
+    { s with m := .ref (h.prune keep) }
+  | _ => s
+
+def step (s : St) (line : String) : St × String :=
+  let fin (s : St) (ans : String) : St × String :=
+    let s := pruneSt s
+    (s, ans ++ " | " ++ stStr s.m)
+  match fields line with
+  | ["kind", a, b, c] => fin { ops := mkOps (a == "1") (b == "1") (c == "1") } "ok"
+  | "rand" :: vs =>
+    match vs.mapM (fun v => v.toNat?.map UInt32.ofNat) with
+    | some l => fin { s with m := addRand s.m l } "ok"
+    | none => (s, "bad-op")
+  | ["mk", hint] =>
+    match hint.toNat? with
+    | some n => fin { s with m := makeMap s.m n, its := [] } "ok"
+    | none => (s, "bad-op")
+  | ["nil"] => fin { s with m := .nil s.m.rand, its := [] } "ok"
+  | ["set", k, v] =>
+    match parseKey k, v.toNat? with
+    | some k, some v =>
+      match mapAssign s.ops s.m k v with
+      | .ok m => fin { s with m := m } "ok"
+      | .error e => fin s (errStr e)
+    | _, _ => (s, "bad-op")
+  | [op, k] =>
+    if op == "get" || op == "get1" then
+      match parseKey k with
+      | some k =>
+        match mapAccess s.ops s.m k with
+        | .ok (r, m) =>
+          let v := match r with | some v => toString v | none => "0"
+          fin { s with m := m } (if op == "get" then s!"v={v} ok={if r.isSome then 1 else 0}" else s!"v={v}")
+        | .error e => fin s (errStr e)
+      | none => (s, "bad-op")
+    else if op == "del" then
+      match parseKey k with
+      | some k =>
+        match mapDelete s.ops s.m k with
+        | .ok m => fin { s with m := m } "ok"
+        | .error e => fin s (errStr e)
+      | none => (s, "bad-op")
+    else if op == "itn" then
+      match newMapIter s.ops s.m with
+      | .ok (it, m) => fin { s with m := m, its := (k, it) :: s.its.filter (·.1 != k) } "ok"
+      | .error e => fin s (errStr e)
+    else if op == "itx" then
+      match s.its.find? (·.1 == k) with
+      | some (_, it) =>
+        match mapIterNext s.ops s.m it with
+        | .ok (r, it) =>
+          let s := { s with its := (k, it) :: s.its.filter (·.1 != k) }
+          match r with
+          | some (key, v) => fin s s!"k={key.repr} v={v}"
+          | none => fin s "end"
+        | .error e => fin s (errStr e)
+      | none => (s, "bad-op")
+    else (s, "bad-op")
+  | ["clr"] => fin { s with m := mapClear s.m } "ok"
+  | ["len"] => fin s s!"n={mapLen s.m}"
+  | _ => (s, "bad-op")
+
+def main : IO Unit := lineLoopSt ({} : St) step
